@@ -207,7 +207,8 @@ class Driver(SystemWideDevice):
         if not isinstance(timed_enable_ms, int):
             raise AssertionError("Wrong type {}".format(timed_enable_ms))
 
-        if self.config['max_hold_duration'] and timed_enable_ms > self.config['max_hold_duration']:
+        # max_hold_duration is configured in seconds
+        if self.config['max_hold_duration'] and timed_enable_ms > self.config['max_hold_duration'] * 1000:
             raise DriverLimitsError("Driver {} may not be held with timed_enable_ms {} because max_hold_duration is {}".
                                     format(self.name, timed_enable_ms, self.config['max_hold_duration']))
 
